@@ -53,14 +53,17 @@ def _lock_source(f: FuncInfo, expr: ast.AST, id_param: str):
     cand: list[ast.AST] = [expr]
     if isinstance(expr, ast.Name):
         cand = c01._reaching_values(f, expr.id)
+    # the id parameter or a plain copy of it (`k = invocation_id`, as left by an inlined helper's parameter binding)
+    ids = {id_param} | {n.targets[0].id for n in walk_no_nested(f.node) if isinstance(n, ast.Assign) and len(n.targets) == 1 and isinstance(n.targets[0], ast.Name) and isinstance(n.value, ast.Name) and n.value.id == id_param}
     for v in cand:
-        if id_param not in names_in(v):
+        if not (ids & names_in(v)):
             continue
         if isinstance(v, ast.Call) and isinstance(v.func, ast.Attribute) and isinstance(v.func.value, ast.Name) and v.func.value.id == "self" and f.cls is not None:
             prov = f.cls.find_method(v.func.attr)
             if prov is not None:
                 return True, prov
         if isinstance(v, (ast.Subscript, ast.Call)) and self_attr(v) is not None:
+            _lock_source.last_direct = v  # type: ignore[attr-defined]  (the table access the lock is taken from)
             return True, None
     return False, None
 
@@ -82,7 +85,7 @@ def r2_r3_mem(ctx: Context) -> None:
         if ok and prov is not None and prov not in providers:
             providers.append(prov)
         if ok and prov is None:
-            direct_exprs.append(e)
+            direct_exprs.append(getattr(_lock_source, "last_direct", e))
         return ok
 
     ws = [w for w in lock_withs(f) if any(lock_pred(i.context_expr) for i in w.items)]
@@ -99,11 +102,16 @@ def r2_r3_mem(ctx: Context) -> None:
     # ---- R3
     if not providers and not direct_exprs:
         ctx.fail("R3", f"{f.qualname}::lock-provider", f.loc(), "cannot identify where the per-invocation lock comes from")
+    seen_tables: set[str] = set()
     for e in direct_exprs:
-        # self.locks[invocation_id]: atomic only if the attribute is a defaultdict(Lock)
+        # the lock is taken from the table inside this very function (no hand-out helper, or the helper was inlined):
+        # the same idioms are accepted, judged over this function's accesses of the table
         a = self_attr(e)
-        ok = _is_defaultdict_of_lock(mem, a)
-        ctx.add("R3", f"{f.qualname}::lock-table::{a}", ok, f.loc(e), "" if ok else f"self.{a}[...] is not a defaultdict(Lock)")
+        if a is None or a in seen_tables:
+            continue
+        seen_tables.add(a)
+        ok, why = _provider_atomic(mem, f, a)
+        ctx.add("R3", f"{f.qualname}::atomic-get-or-create", ok, f.loc(e), why)
     for p in providers:
         ok, why = _provider_atomic(mem, p)
         ctx.add("R3", f"{p.qualname}::atomic-get-or-create", ok, p.loc(), why)
@@ -131,27 +139,31 @@ def _is_defaultdict_of_lock(cls, attr: str | None) -> bool:
     return False
 
 
-def _provider_atomic(cls, p: FuncInfo) -> tuple[bool, str]:
-    """Accepted idioms: return self.T.setdefault(k, Lock()); return self.T[k] with T a
-    defaultdict(Lock); membership test + insert both inside one `with <table lock>` block."""
+def _provider_atomic(cls, p: FuncInfo, table: str | None = None) -> tuple[bool, str]:
+    """Accepted idioms: self.T.setdefault(k, Lock()); self.T[k] with T a defaultdict(Lock); membership test +
+    insert both inside one `with <table lock>` block.  With `table` given only accesses of self.<table> count
+    (the hand-out happens inside a larger function)."""
+    mine = (lambda a: a is not None and (table is None or a == table))  # noqa: E731
     rets = [n for n in walk_no_nested(p.node) if isinstance(n, ast.Return) and n.value is not None]
     tests = []
     for n in walk_no_nested(p.node):
-        if isinstance(n, ast.Compare) and any(isinstance(op, (ast.In, ast.NotIn)) for op in n.ops) and any(self_attr(c) for c in n.comparators):
+        if isinstance(n, ast.Compare) and any(isinstance(op, (ast.In, ast.NotIn)) for op in n.ops) and any(mine(self_attr(c)) for c in n.comparators):
             tests.append(n)
-        if isinstance(n, ast.Call) and call_name(n) == "get" and self_attr(n.func) is not None:
+        if isinstance(n, ast.Call) and call_name(n) == "get" and mine(self_attr(n.func)):
             tests.append(n)
-    inserts = [n for n in walk_no_nested(p.node) if isinstance(n, ast.Assign) and any(isinstance(t, ast.Subscript) and self_attr(t) for t in n.targets)]
+    inserts = [n for n in walk_no_nested(p.node) if isinstance(n, ast.Assign) and any(isinstance(t, ast.Subscript) and mine(self_attr(t)) for t in n.targets)]
     if not tests and not inserts:
         for r in rets:
             v = r.value
-            if isinstance(v, ast.Call) and call_name(v) == "setdefault" and self_attr(v.func) is not None:
+            if isinstance(v, ast.Call) and call_name(v) == "setdefault" and mine(self_attr(v.func)):
                 return True, ""
-            if isinstance(v, ast.Subscript) and _is_defaultdict_of_lock(cls, self_attr(v)):
+            if isinstance(v, ast.Subscript) and mine(self_attr(v)) and _is_defaultdict_of_lock(cls, self_attr(v)):
                 return True, ""
-        # setdefault assigned to a local then returned
+        # setdefault assigned to a local then returned / used
         for n in walk_no_nested(p.node):
-            if isinstance(n, ast.Call) and call_name(n) == "setdefault" and self_attr(n.func) is not None:
+            if isinstance(n, ast.Call) and call_name(n) == "setdefault" and mine(self_attr(n.func)):
+                return True, ""
+            if table is not None and isinstance(n, ast.Subscript) and self_attr(n) == table and _is_defaultdict_of_lock(cls, table):
                 return True, ""
         return False, "unrecognised lock hand-out idiom"
     # check-then-insert: must be inside one with-block on a lock attribute
